@@ -540,3 +540,282 @@ Proof.
   specialize (R sched _ _ I0).
   destruct (run New sched (pool0 calls) (world0 cpk spk chm rch cbk)); simpl; auto. contradiction.
 Qed.
+
+(* ------------------------------------------------------------------------------------------ *)
+(* closed is final (any step list, any state)                                                   *)
+Lemma chan_le_refl c : chan_le c c = true. Proof. destruct c; reflexivity. Qed.
+Lemma chan_le_trans a b c : chan_le a b = true -> chan_le b c = true -> chan_le a c = true.
+Proof. destruct a, b, c; simpl; auto. Qed.
+Lemma implb_trans a b c : implb a b = true -> implb b c = true -> implb a c = true.
+Proof. destruct a, b, c; simpl; auto. Qed.
+
+Lemma sess_le_refl s : sess_le s s = true.
+Proof. unfold sess_le. rewrite !Bool.implb_same, !chan_le_refl. reflexivity. Qed.
+Lemma world_le_refl w : world_le w w = true.
+Proof. unfold world_le. rewrite !sess_le_refl, !Bool.implb_same, !chan_le_refl. reflexivity. Qed.
+
+Ltac split_andb :=
+  repeat match goal with
+  | H : _ && _ = true |- _ => apply andb_prop in H; destruct H
+  end.
+
+Ltac trans_tac :=
+  match goal with
+  | |- implb ?a ?c = true =>
+      match goal with H1 : implb a ?b = true, H2 : implb ?b c = true |- _ => exact (implb_trans _ _ _ H1 H2) end
+  | |- chan_le ?a ?c = true =>
+      match goal with H1 : chan_le a ?b = true, H2 : chan_le ?b c = true |- _ => exact (chan_le_trans _ _ _ H1 H2) end
+  end.
+
+Lemma sess_le_trans a b c : sess_le a b = true -> sess_le b c = true -> sess_le a c = true.
+Proof.
+  unfold sess_le. intros H1 H2. split_andb.
+  repeat (apply andb_true_intro; split); trans_tac.
+Qed.
+Lemma world_le_trans a b c : world_le a b = true -> world_le b c = true -> world_le a c = true.
+Proof.
+  unfold world_le. intros H1 H2. split_andb.
+  repeat match goal with
+         | H1 : sess_le ?x ?y = true, H2 : sess_le ?y ?z = true |- _ =>
+             rewrite (sess_le_trans _ _ _ H1 H2); clear H1 H2
+         end; simpl.
+  repeat (apply andb_true_intro; split); trans_tac.
+Qed.
+
+Lemma section_le s s' : shutdown_section s = inl s' -> sess_le s s' = true.
+Proof.
+  destruct s as [cg sh cd sc wc rc cr sw chn sd wk rv dn mx pk wt lk].
+  unfold shutdown_section, close_fault, SendClosed, WakeClosed, RecvClosed, CanRecv; simpl.
+  destruct sd, wk, rv, cd, sc, wc, rc, cr; simpl; intros H; inversion H; subst; clear H;
+    unfold sess_le; simpl; rewrite ?Bool.implb_same, ?chan_le_refl, ?Bool.implb_true_r; reflexivity.
+Qed.
+
+Ltac le_solve :=
+  unfold world_le, sess_le; cbn;
+  rewrite ?Bool.implb_same, ?chan_le_refl, ?Bool.implb_true_r; cbn;
+  try reflexivity;
+  repeat match goal with
+         | |- context [implb ?b _] => is_var b; destruct b; cbn
+         | |- context [chan_le ?c _] => is_var c; destruct c; cbn
+         end; try reflexivity; try discriminate.
+
+Lemma step_le m p w w' p' : exec m p w = Step w' p' -> world_le w w' = true.
+Proof.
+  intros He.
+  destruct w as [c v li dq cx rc c2 cb ss g1 g2 g3 lcg lcd lwc ld sk lx rn sx ac dl n1 n2 n3 n4 n5].
+  destruct c as [cg sh cd sc wc rcc cr sw chn sd wk rv dn mx pk wt lk].
+  destruct v as [cg' sh' cd' sc' wc' rcc' cr' sw' chn' sd' wk' rv' dn' mx' pk' wt' lk'].
+  destruct p; try (destruct d); cbn in He; unfold close_fault in He;
+    repeat (break_match_hyp He; try discriminate);
+    inversion He; subst; clear He;
+    try (match goal with E : shutdown_section _ = inl ?s |- _ =>
+           pose proof (section_le _ _ E) as L; destruct s; unfold world_le; cbn; rewrite L end);
+    le_solve.
+Qed.
+
+Lemma closed_is_final m sched : forall pool w pool' w',
+  run m sched pool w = Running pool' w' -> world_le w w' = true.
+Proof.
+  induction sched as [|i rest IH]; intros pool w pool' w' H; simpl in H.
+  - inversion H; subst. apply world_le_refl.
+  - unfold sched1 in H. destruct (nth_error pool i) as [p|]; [|eauto].
+    destruct (exec m p w) as [w1 p1| |f] eqn:E; [| eauto | discriminate].
+    eapply world_le_trans; [eapply step_le; eauto | eauto].
+Qed.
+
+(* ------------------------------------------------------------------------------------------ *)
+(* regression: the old step list (the tree before the four repairs)                             *)
+Definition w_reg : world := world0 false false false true true.
+
+(* (1) two handlers serve an SvShutdown notice each: both pass the unlocked Closing() test, both
+       run shutdown(), both reach close(s.ch).  Schedule [A.test; B.test; A.shutdown; B.shutdown] *)
+Definition sched_double_close : list nat := rep 8 5 ++ rep 8 6 ++ rep 7 5 ++ rep 7 6.
+Lemma double_close_ch_refuted :
+  run Old sched_double_close (pool0 [SH0 false; SH0 false]) w_reg = Faulted (DoubleClose NDone) 6.
+Proof. vm_compute. reflexivity. Qed.
+Lemma double_close_ch_repaired :
+  faulted (run New sched_double_close (pool0 [SH0 false; SH0 false]) w_reg) = false.
+Proof. vm_compute. reflexivity. Qed.
+
+(* (2) the eventer goroutine: receiving from its closed channel never blocks and never ends *)
+Lemma eventer_spins_old w :
+  ctxdone w = false -> is_closed (mux (cli w)) = true ->
+  exec Old CE0 w = Step w CE0 /\ exec New CE0 w = Step w PDone.
+Proof. intros H1 H2. simpl. rewrite H1, H2. auto. Qed.
+
+(* (3) handler A has tested SendClosed, handler B runs its whole shutdown, A sends the ack *)
+Definition sched_send_closed : list nat := rep 3 5 ++ rep 11 6 ++ [5].
+Lemma send_on_closed_refuted :
+  run Old sched_send_closed (pool0 [SH0 false; SH0 false]) w_reg = Faulted (SendOnClosed NSend) 5.
+Proof. vm_compute. reflexivity. Qed.
+Lemma send_on_closed_repaired :
+  faulted (run New sched_send_closed (pool0 [SH0 false; SH0 false]) w_reg) = false.
+Proof. vm_compute. reflexivity. Qed.
+
+(* (4) Close() and a context cancel: the cancel lands after the listen loop looked at the context
+       and before its last Connect; the client closes, the reachable server is never told *)
+Definition sched_notice_lost : list nat := rep 3 5 ++ rep 4 0 ++ [6] ++ rep 4 0.
+Definition notice_lost (r : rstate) : bool :=
+  match r with
+  | Running _ w => closed (cli w) && reachable w && negb (sent_shut w)
+  | Faulted _ _ => false
+  end.
+Lemma final_notice_lost_refuted :
+  notice_lost (run Old sched_notice_lost (pool0 [CC0 true; CX]) w_reg) = true.
+Proof. vm_compute. reflexivity. Qed.
+Lemma final_notice_repaired :
+  notice_lost (run New sched_notice_lost (pool0 [CC0 true; CX]) w_reg) = false.
+Proof. vm_compute. reflexivity. Qed.
+
+(* what the repaired tree can still do: Remove's unlocked IsActive test, then the whole
+   Server.shutdown (which closes delSession), then Remove's send *)
+Definition sched_remove_race : list nat := rep 5 5 ++ [6; 6] ++ rep 13 2 ++ rep 5 3 ++ rep 7 2 ++ [5].
+Lemma remove_race_refuted :
+  run New sched_remove_race (pool0 [SH0 false; SV0]) (world0 false false false true false)
+  = Faulted (SendOnClosed NDelS) 5.
+Proof. vm_compute. reflexivity. Qed.
+
+(* non-vacuity: three concurrent calls (client Close, server-side Close, context cancel) under the
+   fair round-robin schedule: everything returns, both ends closed, the notice went out, the
+   server forgot the session, nothing is left running *)
+Definition all_done (r : rstate) : bool :=
+  match r with
+  | Running pool w =>
+      forallb quiescent_pc (skipn (length service) pool) &&
+      closed (cli w) && is_closed (done (cli w)) && closed (srv w) && is_closed (done (srv w)) &&
+      sent_shut w && negb (listed w) &&
+      quiescent_pc (nth 0 pool CL0) && quiescent_pc (nth 1 pool CE0)
+  | Faulted _ _ => false
+  end.
+Lemma nonvacuous_three_threads :
+  all_done (model_run New false false false true true [[1; 4; 3]]%Z) = true.
+Proof. vm_compute. reflexivity. Qed.
+
+(* ------------------------------------------------------------------------------------------ *)
+(* second invariant: the notice, the listing, who waits for what                                *)
+Definition at_cl24 (p : pc) : bool := match p with CL2 | CL3 | CL4 | CL4o => true | _ => false end.
+Definition at_sd_cli (p : pc) : bool :=
+  match p with SD0 Cli _ | SD1 Cli _ _ | SD2 Cli _ _ | SD3 Cli _ _ | SD4 Cli _ => true | _ => false end.
+Definition at_sd12_srv (p : pc) : bool := match p with SD1 Srv _ _ | SD2 Srv _ _ => true | _ => false end.
+Definition at_cc35 (p : pc) : bool := match p with CC3 _ | CC4 _ | CC5 => true | _ => false end.
+Definition at_lc24 (p : pc) : bool := match p with LC2 _ | LC3 _ | LC4 _ => true | _ => false end.
+Definition at_cl4o (p : pc) : bool := match p with CL4o => true | _ => false end.
+Definition td19 (p : pc) : bool :=
+  match p with SV0 | SV1 | SV2 | SS0 _ => false | _ => srv_td p end.
+(* the client's last transmission carried SvShutdown, or there was no way to reach the server *)
+Definition notified (w : world) : nat := b2n (sent_shut w) + b2n (negb (reach w)) + b2n (sock_closed w).
+
+Record Inv2 (pool : list pc) (w : world) : Prop := {
+  j_pk : b2n (peek (cli w)) = 0 -> cnt at_cl24 pool = 0;
+  j_nt1 : notified w = 0 -> cnt at_sd_cli pool = 0;
+  j_nt2 : b2n (closed (cli w)) <= notified w;
+  j_fg : b2n (closed (srv w)) <= b2n (negb (listed w)) + delq w + cnt at_sd12_srv pool + b2n (sctx_done w);
+  j_dn : b2n (is_closed (sv_done w)) <= b2n (sctx_done w);
+  j_td : b2n (sctx_done w) = 0 -> cnt td19 pool = 0;
+  j_cc : b2n (closing (cli w)) = 0 -> cnt at_cc35 pool = 0;
+  j_lc : b2n (l_closing w) = 0 -> cnt at_lc24 pool = 0;
+  j_o : cnt at_cl4o pool = 0
+}.
+
+Lemma at_cl24_le l : cnt at_cl24 l <= cnt in_listen l. Proof. apply cnt_le; intros []; simpl; congruence. Qed.
+
+Ltac facts2 Hn q :=
+  pf at_cl24 Hn q; pf at_sd_cli Hn q; pf at_sd12_srv Hn q; pf at_cc35 Hn q; pf at_lc24 Hn q; pf td19 Hn q; pf at_cl4o Hn q;
+  pf in_listen Hn q;
+  match type of Hn with nth_error ?l _ = _ => pose proof (at_cl24_le l) end.
+
+(* what the case analysis of the step left behind about single booleans *)
+Ltac bool_hyps :=
+  repeat match goal with
+  | H : ?a && ?b = true |- _ => apply andb_prop in H; destruct H
+  | H : negb ?x = true |- _ => apply negb_true_iff in H
+  | H : negb ?x = false |- _ => apply negb_false_iff in H
+  | H : ?a || ?b = false |- _ => apply orb_false_elim in H; destruct H
+  | H : ?x = true |- _ => is_var x; subst x
+  | H : ?x = false |- _ => is_var x; subst x
+  | H : ?a && ?b = false |- _ => apply andb_false_iff in H; destruct H
+  | H : ?a || ?b = true |- _ => apply orb_true_iff in H; destruct H
+  | H : is_closed ?c = ?v |- _ => rewrite H in *; clear H
+  end.
+
+Ltac heavy2 Hn q :=
+  facts2 Hn q; split_ifs; unfold reachable, server_active in *; cbn [reach sock_closed sv_done sctx_done] in *;
+  bool_hyps; cbn [b2n negb andb orb] in *; arith.
+
+Ltac one2 Hn q :=
+  cbn; rw_eqs;
+  first [ assumption | reflexivity
+        | (simp_cnt Hn; first [assumption | reflexivity])
+        | heavy2 Hn q ].
+
+Lemma step_inv2 pool w i p w' p' :
+  Inv pool w -> Inv2 pool w -> nth_error pool i = Some p -> exec New p w = Step w' p' ->
+  Inv2 (set_nth i p' pool) w'.
+Proof.
+  intros HI HJ Hn He.
+  pose proof (i_l1 _ _ HI) as Hl1. pose proof (i_okc _ _ HI) as Hokc. pose proof (i_okv _ _ HI) as Hokv.
+  clear HI.
+  destruct HJ as [Jpk Jnt1 Jnt2 Jfg Jdn Jtd Jcc Jlc Jo].
+  destruct_world w.
+  unfold notified, reachable in *. cbn in *.
+  destruct p; destruct_pc_args; try (destruct x); try (destruct g); try (destruct w); cbn in He;
+    repeat (break_match_hyp He; try discriminate);
+    try use_section Hokc; try use_section Hokv;
+    inversion He; subst; clear He;
+    repeat match goal with
+           | |- context [ret_pc ?r] => is_var r; destruct r; cbn [ret_pc]
+           | |- context [ret2_pc ?r] => is_var r; destruct r; cbn [ret2_pc]
+           end;
+    match goal with |- Inv2 (set_nth _ ?q _) _ => constructor; unfold notified; try one2 Hn q end.
+Qed.
+
+Lemma inv2_init cpk spk chm rch cbk calls :
+  forallb entry calls = true -> Inv2 (pool0 calls) (world0 cpk spk chm rch cbk).
+Proof.
+  intros E. unfold pool0.
+  constructor; unfold notified; rewrite ?cnt_app;
+    repeat match goal with
+           | |- context [cnt ?f calls] => rewrite (cnt_entry f ltac:(entry_class) calls E)
+           end;
+    destruct cpk, spk, chm, rch; vm_compute;
+    first [reflexivity | lia | (intros; first [reflexivity | lia | discriminate])].
+Qed.
+
+Definition Inv12 (pool : list pc) (w : world) : Prop := Inv pool w /\ Inv2 pool w.
+
+Lemma run_inv12 sched : forall pool w, Inv12 pool w ->
+  match run New sched pool w with Running pool' w' => Inv12 pool' w' | Faulted f _ => f = SendOnClosed NDelS end.
+Proof.
+  apply (run_ind_inv New Inv12 (fun f => f = SendOnClosed NDelS)).
+  - intros ? ? ? ? ? ? [A B] ? ?; split; [eapply step_inv | eapply step_inv2]; eauto.
+  - intros ? ? ? ? ? [A B] ? ?; eapply step_fault; eauto.
+Qed.
+
+Lemma reachable_inv12 cpk spk chm rch cbk calls sched pool w :
+  forallb entry calls = true ->
+  run New sched (pool0 calls) (world0 cpk spk chm rch cbk) = Running pool w -> Inv12 pool w.
+Proof.
+  intros E H.
+  pose proof (run_inv12 sched _ _ (conj (inv_init cpk spk chm rch cbk calls E) (inv2_init cpk spk chm rch cbk calls E))) as R.
+  rewrite H in R. exact R.
+Qed.
+
+(* peer_notified, client side: a closed client whose server was reachable has sent SvShutdown *)
+Lemma peer_notified_inv pool w :
+  Inv2 pool w -> closed (cli w) = true -> reachable w = true -> sent_shut w = true.
+Proof.
+  intros [_ _ J _ _ _ _ _ _] Hc Hr. unfold notified, reachable in *.
+  rewrite Hc in J. apply andb_prop in Hr. destruct Hr as [Hr1 Hr2].
+  rewrite Hr1 in J. apply negb_true_iff in Hr2. rewrite Hr2 in J. simpl in J.
+  destruct (sent_shut w); auto. simpl in J. lia.
+Qed.
+
+(* server_forgets: a closed server-side session is unlisted as soon as the removal requests
+   that its shutdown queued have been taken by the server loop *)
+Lemma server_forgets_inv pool w :
+  Inv2 pool w -> closed (srv w) = true -> sctx_done w = false -> delq w = 0 -> cnt at_sd12_srv pool = 0 ->
+  listed w = false.
+Proof.
+  intros [_ _ _ J _ _ _ _ _] Hc Hs Hd Hn. rewrite Hc, Hs, Hd, Hn in J. simpl in J.
+  destruct (listed w); auto. simpl in J. lia.
+Qed.
